@@ -135,3 +135,11 @@ Theorem C09_source_clip_is_model : forall (sk : list ivl) (kv : bool) (kf : opti
             (src (Some gs) (Some ge) false) sk.
 Proof. exact (@g_cache_fill_gap_clip_eq unit). Qed.
 Print Assumptions C09_source_clip_is_model.
+
+(* ---- tie C: CachedTimeline.fetch itself (evict, gaps, fill, stitch, serve) as the code has it: on every
+   state meeting the invariants the GENERATED fetch keeps them and returns the source's slice ---- *)
+From CG Require Import Proofs.GenEq8.
+Example C09_source_fetch_observational : _ := @src_cache_fetch_c09 unit.
+Print Assumptions C09_source_fetch_observational.
+Example C09_source_histories_are_model : _ := @g_crun_all_eq unit.
+Print Assumptions C09_source_histories_are_model.
